@@ -196,6 +196,8 @@ class TableWorld:
                 return 0
             raise Mismatch('frees something that is not the slot storage')
         if nm == 'Table_Ideal_Size':
+            if getattr(self, 'ideal', None) is not None:
+                return self.ideal                                     # a scenario in which the operation crosses a resize threshold
             return self.atoms[('elem', 'self', 0, 'nslots')] or NS    # the table keeps its size in these scenarios (a table without slots gets NS)
         raise cint.NoEval('call %s' % nm)
 
@@ -424,6 +426,62 @@ def eval_table_rehash(P):
                 for q in sorted(set(before) | {99}) if not msg else []:
                     r2 = W.run(memf, [SELF, 4000 + q])
                     if not (r2[0] == 'ret' and bool(r2[1]) == (q in before)):
+                        msg = 'afterwards mem(key %d) %s' % (q, 'returns %s' % (r2[1],) if r2[0] == 'ret' else r2[1])
+                        break
+                if msg:
+                    bad = bad or '%s: %s' % (label, msg)
+            except Mismatch as x:
+                bad = bad or '%s: %s' % (label, x)
+    return bad, unsup, ncase
+
+
+def eval_table_resizing_ops(P):
+    """set and rem that cross a resize threshold (the ideal size reported for the table's count is larger / smaller than its slot count, so the
+    operation rehashes on the way): afterwards the table binds exactly the abstract map, the count matches and every key is found.
+    -> (mismatch, unsupported, cases)"""
+    setf, memf, remf = (P.slot('Table', 'Get', m) for m in ('set', 'mem', 'rem'))
+    bad, unsup, ncase = None, None, 0
+    for homes in ({0: 0, 1: 3}, {0: 4, 1: 4, 2: 0}, {0: 3, 1: 4, 2: 3}):
+        for op, ideal in (('rem', 3), ('set', 7)):
+            hv = {k: h + 105 * (k + 1) for k, h in homes.items()}          # 105 = 3 * 5 * 7: same home modulo 5, 7 and 3
+            hv[9] = 2 + 105 * 11
+            W = TableWorld(P, hv)
+            label = 'table with keys at home slots %s, %s while the ideal size for its count is %d slots' % ([homes[k] for k in sorted(homes)], op, ideal)
+            try:
+                okb = True
+                for k in sorted(homes):
+                    if W.run(setf, [SELF, 4000 + k, 5000 + k])[0] != 'ret':
+                        okb = False
+                if not okb:
+                    continue
+                before, _ = W.bindings()
+                model = {k: v[0] for k, v in before.items()}
+                W.events = []
+                W.ideal = ideal
+                if op == 'rem':
+                    victim = sorted(homes)[0]
+                    r = W.run(remf, [SELF, 4000 + victim])
+                    del model[victim]
+                else:
+                    r = W.run(setf, [SELF, 4000 + 9, 5000 + 9])
+                    model[9] = 9
+                W.ideal = None
+                ncase += 1
+                if r[0] == 'stuck':
+                    unsup = unsup or '%s: %s' % (label, r[1])
+                    continue
+                if r[0] != 'ret':
+                    bad = bad or '%s: does not return' % label
+                    continue
+                got, prob = W.bindings()
+                msg = prob
+                if not msg and {k: v[0] for k, v in got.items()} != model:
+                    msg = 'the table binds %s, the map is %s' % ({k: v[0] for k, v in sorted(got.items())}, dict(sorted(model.items())))
+                if not msg and W.atoms[('elem', 'self', 0, 'nitems')] != len(model):
+                    msg = 'the count is %s, %d keys are bound' % (W.atoms[('elem', 'self', 0, 'nitems')], len(model))
+                for q in sorted(set(model) | set(homes) | {9}) if not msg else []:
+                    r2 = W.run(memf, [SELF, 4000 + q])
+                    if not (r2[0] == 'ret' and bool(r2[1]) == (q in model)):
                         msg = 'afterwards mem(key %d) %s' % (q, 'returns %s' % (r2[1],) if r2[0] == 'ret' else r2[1])
                         break
                 if msg:
